@@ -356,6 +356,45 @@ def c09(run, drv, rng, ncases, all_k):
                         run.violation("the estimated wind direction does not shift with the rotation / negate with the mirroring",
                                       dict(what, base_dir=base["u10dir"].tolist(), got_dir=got["u10dir"].tolist(), base_u10=ub.tolist(), got_u10=ug.tolist(),
                                            base_ddir=base["Ddir"].tolist(), got_ddir=got["Ddir"].tolist(), bulk_dissipation=base["Db"].tolist()))
+            # the same rotation written as a relabelling of the direction axis (density untouched, storage order crossing 360
+            # somewhere - for k = nd - 1 between the first two entries): fields unchanged, angles shifted
+            for k in sorted(set([nd - 1, 1, rng.randrange(1, nd)])):
+                run.case("rotation_by_relabelling", key=(case, k))
+                ds_r = spec.dataset.copy(deep=True).assign_coords(direction=(spec.dataset["direction"].values + k * binw) % 360.0)
+                from ocean_science_utilities.wavespectra.spectrum import FrequencyDirectionSpectrum
+                got = evaluate(FrequencyDirectionSpectrum(ds_r), wdir + k * binw, False)
+                what = dict(info, transform=f"relabel {k}")
+                if not wp.close(got["S"], base["S"], 1e-9) or not wp.close(got["D"], base["D"], 1e-9):
+                    run.violation("relabelling the direction axis by k bins (and turning the wind) changes the source-term fields", what)
+                if not np.allclose(got["Sb"], base["Sb"], rtol=1e-9, atol=1e-300) or not np.allclose(got["Db"], base["Db"], rtol=1e-9, atol=1e-300) \
+                        or not np.allclose(got["tau"], base["tau"], rtol=1e-9, atol=1e-300, equal_nan=True):
+                    run.violation("relabelling the direction axis by k bins changes bulk rates or the stress magnitude", what)
+                ok = ~np.isnan(base["taudir"]) & (base["tau"] > 0)
+                okd = base["Db"] < 0
+                if np.any(np.abs(wp.ang_diff(got["taudir"][ok] - k * binw, base["taudir"][ok])) > 1e-6) or \
+                        np.any(np.abs(wp.ang_diff(got["Ddir"][okd] - k * binw, base["Ddir"][okd])) > 1e-6):
+                    run.violation("relabelling the direction axis by k bins does not shift the stress / dissipation-weighted direction by k bins",
+                                  dict(what, base=base["Ddir"].tolist(), got=got["Ddir"].tolist()))
+                zb, zg = base["z0"], got["z0"]
+                both = ~np.isnan(zb) & ~np.isnan(zg)
+                if not np.allclose(zg[both], zb[both], rtol=1e-5, atol=0):
+                    run.violation("relabelling the direction axis changes the roughness length", what)
+            # one batch whose members are rotations of each other, each with its own wind direction
+            if case % 2 == 0:
+                run.case("batch_of_rotations", key=(case,))
+                ks = [0, 1 + rng.randrange(nd - 1), 1 + rng.randrange(nd - 1)]
+                Eb = np.array([np.roll(E[0], kk, axis=1) for kk in ks])
+                spb = wp.with_density(wp.subset(spec, [0, 0, 0]), Eb)
+                wb = np.array([wdir[0] + kk * binw for kk in ks])
+                sp3, z3 = np.full(3, speed[0]), np.full(3, z0[0])
+                Sb3 = gen.rate(spb, wp.da(sp3), wp.da(wb), roughness_length=wp.da(z3), wind_speed_input_type=wtype).values
+                Db3 = dis.rate(spb).values
+                bulk3 = gen.bulk_rate(spb, wp.da(sp3), wp.da(wb), roughness_length=wp.da(z3), wind_speed_input_type=wtype).values
+                for j, kk in enumerate(ks):
+                    if not wp.close(np.roll(Sb3[j], -kk, axis=1), Sb3[0], 1e-9) or not wp.close(np.roll(Db3[j], -kk, axis=1), Db3[0], 1e-9) \
+                            or not np.allclose(bulk3[j], bulk3[0], rtol=1e-9, atol=1e-300):
+                        run.violation("members of one batch that are rotations of each other (each with its own wind direction) do not get rotated fields / equal bulk rates",
+                                      dict(info, member=j, k=kk))
             # correspondence of the stress vector for one point
             i = rng.randrange(npts)
             drv.ask(wp.ctx_line(spec, i, gp, True))
@@ -660,8 +699,12 @@ def c11(run, drv, rng, ncases):
                 kinds = ["jonswap"] * npts
                 if case % 5 == 4:
                     kinds[rng.randrange(npts)] = "empty"
+                if case % 4 == 3:
+                    kinds = ["young"] * npts          # young wind seas: peak at 0.55-0.7 Hz on a grid reaching 1 Hz
+                    nf = 14
                 depth_mode = rng.choice(["deep", "deep", "finite"])
                 spec, ths = wp.make_spectrum(rng, npts, nf, nd, kinds, depth_mode)
+                nf = spec.variance_density.shape[1]
                 E = spec.variance_density.values * rng.choice([0.7, 1.0, 1.0, 1.5])
                 spec = wp.with_density(spec, E)
                 gen, gp = wp.generation(rng.choice(wp.GEN_VARIANTS[:3]))
@@ -778,6 +821,15 @@ def c11(run, drv, rng, ncases):
                 muf = float("nan") if mu[0] in ("nan", "raised") else from_bits(mu[0])
                 if not (abs(muf - u10[i]) <= 0.03):
                     run.mismatch("u10_from_bulk_rate", dict(what, impl=float(u10[i]), model=muf, guess=guess))
+            # a missing depth means deep water
+            if case >= 0 and depth_mode == "deep" and case % 2 == 0:
+                run.case("missing_depth_is_deep", key=(case,))
+                unknown = wp.with_density(spec, spec.variance_density.values, depth=np.full(npts, np.nan))
+                ou = estimate_u10_from_source_terms(unknown, bal, time_derivative_spectrum=tds)
+                if not (np.allclose(ou["u10"].values, u10, rtol=1e-9, atol=0, equal_nan=True)
+                        and np.allclose(ou["direction"].values, udir, rtol=1e-9, atol=0, equal_nan=True)):
+                    run.violation("a spectrum with missing depth does not get the wind estimate of the same spectrum in deep water",
+                                  dict(info, missing_depth_u10=ou["u10"].values.tolist()))
             # batch = single
             if npts > 1:
                 i = rng.randrange(npts)
